@@ -28,7 +28,7 @@ Types == DOMAIN Cfg.types \cup {"R"}
 Named   == [t \in Types |-> IF t = "R" THEN S(Cfg.edges[R.edge].named)   ELSE S(Cfg.types[t].named)]
 Through == [t \in Types |-> IF t = "R" THEN S(Cfg.edges[R.edge].through) ELSE S(Cfg.types[t].through)]
 Et(t)    == IF t = "R" THEN R.r_et ELSE IF t = "D" THEN R.d_et ELSE Cfg.types[t].et
-Chars(t) == IF t = "R" THEN <<"R", "@">> ELSE Cfg.types[t].chars
+Chars(t) == IF t = "R" THEN <<"R", "@">> ELSE IF t = "D" THEN R.d_chars ELSE Cfg.types[t].chars     \* (D may be renamed)
 
 Must == Reachable("R", Named, Through)
 Predicted == { Location(Cwd, R.dir, Chars(t), Et(t)) : t \in Must }
